@@ -190,7 +190,15 @@ func (p *Prog) missingCallees(pats []string) []string {
 		if pt.K == "call" && !seen[pt.Name] {
 			seen[pt.Name] = true
 			if p.isModuleFuncName(pt.Name) == 0 {
-				out = append(out, pt.Name)
+				// a module function that disappeared leaves the rule without its subject; a library function
+				// that is simply not called any more means the guard is gone (decided as such by the caller)
+				last := pt.Name
+				if i := strings.LastIndexAny(last, "./)"); i >= 0 {
+					last = last[i+1:]
+				}
+				if recordedSimpleNames[last] || len(recordedSimpleNames) == 0 {
+					out = append(out, pt.Name)
+				}
 			}
 		}
 		for _, s := range pt.Sub {
@@ -1020,4 +1028,82 @@ func (p *Prog) successTrace(fn *ssa.Function, depth int) []traceStep {
 		out = append(out, traceStep{fi.T(call), call, fn, len(sub)})
 	}
 	return out
+}
+
+// ---- linear search ----
+
+// linearSearchRule: fn searches the WHOLE collection coll (a pattern over fn's parameters, $p0.. are
+// the parameters): one counted loop from 0 to len(coll); a "found" return (last result true / nil)
+// happens only inside the loop under an equality on coll[i], and returns the loop index; a "not
+// found" return only after the loop ran to exhaustion. (A loop that stops one element early, starts
+// at 1 or returns a stale index breaks membership and index lookups for the skipped element.)
+func linearSearchRule(p *Prog, c *Check, rule, spec, collPat string) {
+	fn, err := p.Func(spec)
+	if !c.Must(err) {
+		return
+	}
+	c.Analysed(shortFn(fn))
+	fi := p.Info(fn)
+	b := Binds{}
+	for i, prm := range fn.Params {
+		b[fmt.Sprintf("p%d", i)] = fi.T(prm)
+	}
+	var loop *Loop
+	for _, l := range loopsOf(p, fn) {
+		if l.Idx != nil && l.Lo == 0 && ParsePat("len("+collPat+")").Match(l.Bound, copyBinds(b)) {
+			loop = l
+		}
+	}
+	key := fnName(fn) + ":linear-search"
+	if loop == nil {
+		c.Fail(rule, key, p.Rel(fn.Pos()), shortFn(fn), "search loop", "no loop over the whole collection (index 0 up to its length)")
+		return
+	}
+	nres := fn.Signature.Results().Len()
+	last := fn.Signature.Results().At(nres - 1).Type()
+	ok := true
+	why := ""
+	nFound, nNot := 0, 0
+	for _, r := range returnsOf(fn) {
+		found := false
+		if isErrorType(last) {
+			switch fi.errIsNil(r.Results[nres-1], r, 0) {
+			case yes:
+				found = true
+			case no:
+			default:
+				ok, why = false, "a return is neither clearly found nor clearly not-found"
+			}
+		} else {
+			switch fi.T(r.Results[nres-1]).s {
+			case "true":
+				found = true
+			case "false":
+			default:
+				ok, why = false, "a return is neither clearly found nor clearly not-found"
+			}
+		}
+		if found {
+			nFound++
+			eb := copyBinds(b)
+			eb["i"] = loop.Idx
+			_, eq1 := findAtom(fi.FactsAt(r), collPat+"[$i] == _", eb)
+			_, eq2 := findAtom(fi.FactsAt(r), "_ == "+collPat+"[$i]", eb)
+			if !(loop.Blocks[r.Block()] || loop.Body != nil && loop.Body.Dominates(r.Block())) || !(eq1 || eq2) {
+				ok, why = false, "a found-result is returned without the current element having compared equal"
+			}
+			if nres >= 2 && stripConv(fi.T(r.Results[0])).s != loop.Idx.s {
+				ok, why = false, "the index returned is not the index of the element that compared equal: "+fi.T(r.Results[0]).s
+			}
+		} else {
+			nNot++
+			if !fi.onlyByExhaustion(loop, r.Block()) {
+				ok, why = false, "not-found is returned before every element was compared"
+			}
+		}
+	}
+	if nFound == 0 || nNot == 0 {
+		ok, why = false, "the function lacks a found or a not-found return"
+	}
+	c.Result(ok, rule, key, p.Rel(fn.Pos()), shortFn(fn), "linear search over "+collPat, why, "found only on equality inside the loop; not-found only by exhaustion of [0, len)")
 }
